@@ -83,7 +83,7 @@ def lemma_obligation(item) -> Result:
             # replay natively
             import re as _re
             from ..ch import escape_lemma as real
-            m = _re.search(r"calling \w+\((.*)\)", msg)
+            m = _re.search(r"calling \w+\((.*?)\)(?: \(which|\s*$)", msg)
             arg = None
             if m:
                 try:
